@@ -6,6 +6,8 @@ import (
 	"verif/checker/core"
 )
 
+var importDepth int
+
 // importObligations runs the rules of a sibling property whose verdicts this property's statement depends on, and
 // carries the selected ones over: each violated or undecided obligation is reported under this property (with its
 // original key in the construct), the discharged ones are summarised in one obligation.
@@ -15,8 +17,15 @@ func importObligations(p *core.Program, r *core.Report, from string, rules map[s
 		r.Errorf("cannot import from %s: no such check", from)
 		return
 	}
+	// imports do not nest: while a check runs on behalf of another one its own imports are skipped (two properties may
+	// import from each other, e.g. C07 <- C18 R1 R2 and C18 <- C07 R5)
+	if importDepth > 0 {
+		return
+	}
+	importDepth++
 	sub := core.NewReport(from, r.Tier)
 	check(p, sub)
+	importDepth--
 	n, ok := 0, 0
 	for _, ob := range sub.Obs {
 		if !rules[ob.Rule] {
